@@ -152,6 +152,18 @@ CHECKS = {
         'Correspondence: exhaustive item sequences on a fixed ontology + random multi-parent ontologies, all item forms, all validator combinations.',
         'Trusted: as C01 and C06; message wording parsed by the harness (CURIEs in brackets, state word).',
         '§4 C11'),
+    'C12': (
+        'Coq proof (lazy iterator = one round of the proved worklist loop per next(); draining refines the eager traversal; non-interference over all histories of opening / advancing iterators) + per-run exploration of histories, interleavings, reader threads and repeated loads on the implementation, with the interleaved yields checked against the graph model in Coq',
+        'Machine-checked theorems, for any successor function and pop policy (so for the stack iterator of the indexed graph and the deque iterator of the '
+        'matrix graph, both instantiated): draining a lazily evaluated traversal iterator yields exactly the eager traversal list that C01/C03 characterise; a '
+        'partially consumed iterator has yielded a prefix of it; for EVERY history of opening and advancing any number of iterators each iterator yields '
+        'exactly what it yields alone, and one opened later is unaffected by what happened before. In the model isolation is structural, so the verdict rests '
+        'on the property\'s own observable on the real code: results after query histories (incl. abandoned half-consumed iterators) equal fresh results; all '
+        'interleavings (<= 60 per configuration, thorough <= 1680) of 2-3 open iterators yield the solo sequences, and their yields match the model in Coq '
+        '(no repeats, right multiset); 8 reader threads; documents / HPOA files A,B,A through the shared default factories. PARTIAL: preemption inside a '
+        'generator step and true parallelism are explored, not proved.',
+        'Trusted: Coq kernel + vm_compute; generator semantics modelled as explicit states; footprint digest is diagnostic only.',
+        '§4 C12'),
     'C13': (
         'Coq proof (for every decision oracle: the clustering loop keeps every leaf, in-order leaves are a rearrangement of the input, positions are handed out once) + per-run vm_compute correspondence that replays the decisions of each real argsort run through the model',
         'Machine-checked theorems for EVERY decision oracle (= every similarity measure, every tie-break of argmax, every epsilon outcome) and every non-empty '
